@@ -36,7 +36,7 @@ func main() {
 
 	ru := g5lib.NewRunner(r, laws())
 	ru.Batch = 12
-	ru.Run("laws", r.N(6000, 150000))
+	ru.Run("laws", r.N(6000, 60000)) // race-built: thorough is sized for the detector's slowdown (design: 150 000 without it)
 	ru.Report()
 	invalidPatterns(r)
 	concurrent(r)
@@ -541,7 +541,7 @@ var regexCalls = []struct{ name, f string }{
 // invalidPatterns: every function raises an error for a pattern that does not compile (never a value, never a
 // panic), and the same session answers the next valid call correctly.
 func invalidPatterns(r *core.Run) {
-	n := r.N(600, 15000)
+	n := r.N(600, 6000)
 	var engs [8]*core.Eng
 	var sess [8]*core.Sess
 	for w := range engs { // created sequentially before the workers start (see g5lib.Runner.Run)
@@ -603,7 +603,7 @@ func invalidPatterns(r *core.Run) {
 // concurrent: 8 sessions of ONE engine evaluate the same statements (same patterns, different subjects per
 // session interleaved) at the same time; every answer must equal the answer a single session gave before.
 func concurrent(r *core.Run) {
-	rounds := r.N(6, 60)
+	rounds := r.N(6, 40)
 	for round := 0; round < rounds; round++ {
 		rnd := r.Rand("concurrent", round)
 		e := core.NewEng("d")
